@@ -100,12 +100,23 @@ class IoPlan:
     # operation makes for library code, a concurrent peer (another sdp process, another thread) dumps another input into
     # the same target directory, creating it with its parents.  Not an error condition: the operation is judged strictly.
     sys_n = 0
+    peer_call = None      # world-supplied callable(target) -> list of paths the peer changed ("peer_call" kind)
 
     def on_sys(self, name, args):
         self.sys_n += 1
         for i, f in enumerate(self.faults):
             if f["site"] == "sys" and int(f["at"]) == self.sys_n:
                 self.faults.pop(i)
+                if f["kind"] == "peer_call" and self.peer_call is not None:
+                    # the peer is the library itself: another thread's parse_from_file(dump=True) into the same target runs
+                    # from start to end while this operation is parked at its k-th os-level call
+                    io_, HOOKS.io = HOOKS.io, None
+                    try:
+                        changed = self.peer_call(f["target"])
+                    finally:
+                        HOOKS.io = io_
+                    self.fired.append({"site": "sys", "kind": "peer_call", "at": self.sys_n, "before_call": name, "changed": changed})
+                    return
                 created = []
                 tgt = f["target"]
                 p = tgt
